@@ -10,6 +10,7 @@ CONSTANTS
   MCWrites = 0
   MCPauses = 0
   MCPanics = {FALSE}
+  MCGoAway = FALSE
   GenDepth = 18
 INVARIANTS Emit NoViolation HandlerBound StreamLimit NeverHandled
 CHECK_DEADLOCK FALSE
